@@ -210,11 +210,39 @@ func runCase(env *vlib.Env, idx int, rep *vlib.Reporter) {
 	// build the canonical chain, plus an abandoned fork with extra matching logs
 	chain := ethfake.NewChain(1000)
 	defer chain.Close()
+	junkRegs := 0
 	build := func(parent *ethfake.Block, from, to int, altLogs bool, tag string) []*ethfake.Block {
 		var out []*ethfake.Block
 		cur := parent
 		for b := from; b <= to; b++ {
 			var pre, post, regs []ethfake.LogSpec
+			// registrations nobody can use (empty, truncated, unsupported or invalid definitions) come
+			// first in the block, with a lower log index than the block's genuine registrations: they
+			// are skipped, and nothing that follows them is
+			jr := vlib.NewRng(env.Seed, 1618, uint64(idx), uint64(b))
+			if len(plans[b].regs) > 0 || jr.Intn(4) == 0 {
+				for j := jr.Intn(3); j >= 0; j-- {
+					var def []byte
+					switch jr.Intn(6) {
+					case 0: // empty
+					case 1:
+						def = []byte{ss.Version}
+					case 2:
+						def = append([]byte{9}, jr.Bytes(20)...)
+					case 3:
+						def = jr.Bytes(1 + jr.Intn(60))
+					case 4:
+						d := definition(jr.Intn(5))
+						def = d[:len(d)-1-jr.Intn(3)]
+					default:
+						def = append(definition(jr.Intn(5)), 0)
+					}
+					var pfx [32]byte
+					copy(pfx[:], jr.Bytes(32))
+					regs = append(regs, ethfake.EventTriggerRegisteredLog(registryAddr, 1, pfx, common.BytesToAddress(jr.Bytes(20)), def, uint64(b)+5))
+					junkRegs++
+				}
+			}
 			for _, k := range plans[b].regs {
 				t := trigs[k]
 				regs = append(regs, ethfake.EventTriggerRegisteredLog(registryAddr, t.eon, t.prefix, t.sender, definition(k), t.expiry))
@@ -241,6 +269,7 @@ func runCase(env *vlib.Env, idx int, rep *vlib.Reporter) {
 		return out
 	}
 	canon := build(chain.Genesis, 1, length, false, "c")
+	rep.Obs("unusable_registrations_on_the_canonical_chain", int64(junkRegs))
 	blockAt := func(n uint64) *ethfake.Block { return canon[n-1] }
 	// reference
 	want := map[string]*trig{}
@@ -295,6 +324,7 @@ func runCase(env *vlib.Env, idx int, rep *vlib.Reporter) {
 		partition{"range=" + fmt.Sprint([]uint64{1, 2, 3, 7}[r.Intn(4)]), 0, randomJumps(), false},
 		partition{"range=" + fmt.Sprint([]uint64{1, 2, 3, 7}[r.Intn(4)]), 0, []uint64{uint64(length)}, false},
 		partition{"detour-over-abandoned-fork", 10_000, randomJumps(), true},
+		partition{"reorg-during-sync", 10_000, randomJumps(), false},
 		partition{"random-jumps-with-rpc-faults", 10_000, randomJumps(), false},
 		partition{"range=" + fmt.Sprint([]uint64{2, 3, 7}[r.Intn(3)]) + "-with-rpc-faults", 0, randomJumps(), false},
 		partition{"random-jumps-with-db-faults", 10_000, randomJumps(), false},
@@ -389,6 +419,46 @@ func runCase(env *vlib.Env, idx int, rep *vlib.Reporter) {
 		}
 		okRun := true
 		heads := p.heads
+		if p.name == "reorg-during-sync" && len(heads) >= 3 {
+			// the node follows a short side branch that builds on the synced block; while the syncer
+			// works on it, between two of its RPC calls, the node switches to the canonical chain
+			m := len(heads) / 2
+			for _, h := range heads[:m+1] {
+				if okRun = syncTo(blockAt(h)); !okRun {
+					break
+				}
+				pos = h
+			}
+			if okRun && heads[m]+3 <= uint64(length) {
+				side := build(blockAt(heads[m]), int(heads[m])+1, int(heads[m])+2, true, "y")
+				target := blockAt(heads[m] + 3)
+				j := r.Intn(8)
+				first := -1
+				chain.Fault = func(n int, method string) error {
+					if first < 0 {
+						first = n
+					}
+					if n-first == j {
+						chain.SetHead(target)
+						rep.Obs("head_switches_between_two_rpc_calls_of_one_sync", 1)
+					}
+					return nil
+				}
+				chain.SetHead(side[1])
+				var serr error
+				if rep.Guard("panic:sync", fmt.Sprintf("%s %s", shape, p.name), func() { serr = syncer.Sync(ctx, side[1].Header) }) {
+					node.Close()
+					return
+				}
+				_ = serr // the interrupted sync may fail or not; what counts is the state after the next syncs
+				chain.Fault = nil
+				chain.SetHead(target)
+				okRun = syncTo(target)
+				pos = heads[m] + 3
+				ranges = nil
+			}
+			heads = heads[m+1:]
+		}
 		if p.detour && len(heads) >= 3 {
 			// sync the canonical chain up to heads[m], then an abandoned fork diverging a few blocks
 			// below, then come back (the fork is at most 10 blocks deep)
